@@ -170,6 +170,15 @@ def _run_fit(case, ctx):
     w = _weights(r, nw, case["weights"])
     p = _grid(r, k)
     n = _synth(k, w, p)
+    if case["seed"] % 4 == 0 and len(p) >= 4:
+        # another recording was fitted with the same kernel just before: same number of points, same first and last pressure,
+        # other pressures in between (the same set points approached on a linear instead of a logarithmic ramp)
+        p_alt = numpy.linspace(p[0], p[-1], len(p))
+        if numpy.allclose(p_alt, p):
+            p_alt = numpy.exp(numpy.linspace(math.log(p[0]), math.log(p[-1]), len(p)))
+        p_alt[0], p_alt[-1] = p[0], p[-1]
+        _call(pk.psd_dft_kernel_fit, p_alt, _synth(k, w, p_alt), path, 0)
+        ctx.count("fits", "preceded-by-a-fit-on-another-grid-with-the-same-ends")
     if case["weights"] == "blank":
         # a blank run (non-porous sample, empty cell): all weights zero is a non-negative combination too
         n = numpy.zeros(len(p))
